@@ -8,7 +8,9 @@ import AidlVerif.Props.ParseTyped
 termination certificate `pot_ok`, non-nullable token expressions `lex_nonnull`, all evaluated by the
 kernel), the model of `add_content` never stops with `fuelOut` — the bound `parseFuel` (64 steps per
 character + 1024) is enough for every input, including inputs on which error recovery runs.
-`addContent_stops3`: the ONLY stop left is the `unreachable!()` of `Direction`.
+`addContent_total`: with the typing results (`ParseTyped.addContent_stops2`) no stop is left — for
+every text and every line/column lookup defined on the character boundaries, the model of
+`add_content` returns a result.
 -/
 
 namespace Aidl.Props.ParseTerm
@@ -43,16 +45,19 @@ theorem addContent_terminates (env : Env) (id text : String) :
     addContentE Driver.Parse.tables env id text ≠ .error .fuelOut :=
   addContent_terminates_gen Driver.Parse.tables cert pot cert_ok pot_ok lexProg_run env id text
 
-/-- **For every text**: `add_content` returns, or stops at the `unreachable!()` of `Direction` —
-    nothing else (no panic of the driver, no `Range::new` / slice panic, no value of the wrong shape,
-    no step bound). -/
-theorem addContent_stops3 (env : Env) (id text : String) (hE : EnvOk env text.toList) (st : Stop)
-    (h : addContentE Driver.Parse.tables env id text = .error st) : ∃ p, st = .action p ∧ p.kind = .lexical := by
-  have h2 := addContent_stops2 env id text hE st h
-  cases st with
-  | driver m => exact h2.elim
-  | action p => exact ⟨p, rfl, h2⟩
-  | fuelOut => exact absurd h (addContent_terminates env id text)
-  | acceptShape => exact h2.elim
+/-- **For every text** and every line/column lookup defined on the character boundaries of the
+    text: the model of `add_content` RETURNS A RESULT — no panic of the driver, no `Range::new` /
+    slice panic, no value of the wrong shape, no `unreachable!()`, no step bound. -/
+theorem addContent_total (env : Env) (id text : String) (hE : EnvOk env text.toList) :
+    ∃ r, addContentE Driver.Parse.tables env id text = .ok r := by
+  cases h : addContentE Driver.Parse.tables env id text with
+  | ok r => exact ⟨r, rfl⟩
+  | error st =>
+    have h2 := addContent_stops2 env id text hE st h
+    cases st with
+    | fuelOut => exact absurd h (addContent_terminates env id text)
+    | driver m => exact h2.elim
+    | action p => exact h2.elim
+    | acceptShape => exact h2.elim
 
 end Aidl.Props.ParseTerm
